@@ -118,7 +118,7 @@ func (c *ClientFingerprintConfiguration) WriteToConfig(config *Config) error {
 }
 
 func currentTimestamp() ([]byte, error) {
-	t := time.Now().Unix()
+	t := uint32(time.Now().Unix())
 	buf := new(bytes.Buffer)
 	err := binary.Write(buf, binary.BigEndian, t)
 	return buf.Bytes(), err
